@@ -384,6 +384,18 @@ def run_case(case, tier):
                      "detail": {"deleted": deleted[:12]}})
     else:
         census_mon.check(run, text, viol, counts, classes, allow_topup_extras=True, remove_penalised=not keep_pen)
+        # whatever is missing, a group is placed on what is left of it: its centre lies within a few Angstrom
+        # of its defining atom (never at the coordinate origin or on another residue)
+        for cname_ in run.rec["names"]:
+            for g_ in run.rec["confs"][cname_]["groups"]:
+                if g_.get("center") is None or g_.get("ccc"):
+                    continue
+                counts["group_centres_checked"] = counts.get("group_centres_checked", 0) + 1
+                d_ = sum((g_["center"][k_] - g_["akey"][k_ + 1] / 1000.0) ** 2 for k_ in range(3)) ** 0.5
+                if d_ > 4.0:
+                    viol.append({"cls": "group-centre-away-from-its-atoms", "msg": "%s: %s (%s) is centred at (%.3f %.3f %.3f), %.1f A from its atom %s" % (
+                        cname_, g_["label"], g_["type"], g_["center"][0], g_["center"][1], g_["center"][2], d_, g_["akey"][0])})
+                    break
         if kind == "fragment" and case["frag"] in fragments.FRAGMENTS and case["frag"] != "sulfate":
             # what is left of the ligand: a group whose atom stands clear of the deletion (nothing removed within
             # three bonds) is still reported with its type, and a nitrogen left without any bonded atom is the same
